@@ -91,6 +91,17 @@ impl ShmWriter {
         #[cfg(feature = "verif-hooks")]
         crate::verif::point("new.mmap", 0, 0, 0);
 
+        // A usable header does not guarantee the file is long enough to back the whole segment (it
+        // may have been truncated). Data written through the memory map beyond the end of the file
+        // is never written back to it, and would be lost to the clients opening the segment after
+        // the pages are dropped. Make sure the file backs every byte that is about to be mapped.
+        let file = fs::OpenOptions::new().write(true).open(path)?;
+        if file.metadata()?.len() < segsize as u64 {
+            file.set_len(segsize as u64)?;
+            file.sync_all()?;
+        }
+        drop(file);
+
         // Memory map the file.
         let addr = ShmWriter::mmap_segment_at(path, segsize)?;
 
